@@ -59,7 +59,7 @@ def check_C01(tier, seed):
     rnd = random.Random(seed)
     cases = []
     if tier == "quick":
-        N, tmo = 3, 60
+        N, tmo = 4, 120
         pick = cat[::3] + cores.composites()
         seen = set()
         for g in pick:
@@ -71,7 +71,7 @@ def check_C01(tier, seed):
             for fs in ("opt", "bl", "all"):
                 cases.append(ref_case(g, ["C01"], flagset=fs))
     else:
-        N, tmo = 4, 600
+        N, tmo = 5, 1800
         for g in cat:
             cases.append(ref_case(g, ["C01"]))
         for g in cat[::2]:
@@ -205,7 +205,7 @@ def run_ref_property(prop, tier, seed, cat, hprops, Nq, Nt, tq=60, tt=900, flags
 
 
 def check_C12(tier, seed):
-    return run_ref_property("C12", tier, seed, cores.fail_catalogue() + cores.pair_core()[::4], ["C12"], 3, 5, tq=90)
+    return run_ref_property("C12", tier, seed, cores.fail_catalogue() + cores.pair_core()[::4], ["C12"], 4, 6, tq=120, tt=1800)
 
 
 def check_C17(tier, seed):
@@ -218,15 +218,15 @@ def check_C02(tier, seed):
 
 
 def check_C05(tier, seed):
-    return run_ref_property("C05", tier, seed, cores.state_catalogue(), ["C05"], 3, 4, flagsets_q=("std", "opt"), quick_stride=1)
+    return run_ref_property("C05", tier, seed, cores.state_catalogue(), ["C05"], 4, 5, flagsets_q=("std", "opt"), quick_stride=1, tq=120, tt=1800)
 
 
 def check_C14(tier, seed):
-    return run_ref_property("C14", tier, seed, cores.throw_catalogue(), ["C14"], 3, 5, flagsets_q=("std", "opt"))
+    return run_ref_property("C14", tier, seed, cores.throw_catalogue(), ["C14"], 4, 6, flagsets_q=("std", "opt"), tq=120, tt=1800)
 
 
 def check_C11(tier, seed):
-    return run_ref_property("C11", tier, seed, cores.fault_catalogue(), ["C11"], 2, 4, file_name="f.txt", flagsets_q=("std",),
+    return run_ref_property("C11", tier, seed, cores.fault_catalogue(), ["C11"], 3, 4, file_name="f.txt", flagsets_q=("std",), tq=120, tt=1800,
                             bounds_extra={"fault_plan": "symbolic: per block slot, first two invocations in {none, errA, errB, panic}", "Recover": "symbolic"})
 
 
@@ -289,7 +289,7 @@ def check_C09(tier, seed):
 
 
 def check_C08(tier, seed):
-    return run_ref_property("C08", tier, seed, cores.lr_catalogue(), ["C08"], 4, 6, tq=120, tt=1800,
+    return run_ref_property("C08", tier, seed, cores.lr_catalogue(), ["C08"], 5, 7, tq=120, tt=1800,
                             flagsets_q=("lr", "lropt"), flagsets_t=("lr", "lropt"),
                             bounds_extra={"Memoize": "symbolic (non-optimized parsers)"},
                             assumptions=["left-recursive rules of the form A <- A a1/.../A an/b1/.../bm, entered through the leader"])
@@ -598,6 +598,8 @@ def c13_grammars(quick):
         "{package p}\nA<-'a'%{l}//{l}'b'\n",
         "{package p}\nE<-E '+' T/T;T<-[0-9]+\n",
         "{package p}\nA<-B 'a'\nB<-x:\"b\"i{return x,nil}\n",
+        "A<-[\\p{Nd}\\pLa-c]i [^\\]\\n]\n",
+        "A<-[a_-\\pL] [+-\\p{Nd}]i\n",
     ]
     if quick:
         return short
@@ -629,7 +631,7 @@ def check_C13(tier, seed):
     rnd = random.Random(seed)
     if quick:
         stride, off = 4, rnd.randrange(4)
-        args = [gi * maxlen + p for gi, g in enumerate(gs) for p in range(off, len(g.encode()), stride)]
+        args = [gi * maxlen + p for gi, g in enumerate(gs) for p in (range(len(g.encode())) if len(g.encode()) <= 30 else range(off, len(g.encode()), stride))]
     else:
         args = [gi * maxlen + p for gi, g in enumerate(gs) for p in range(0, len(g.encode()) - width + 1, 1 if gi < 4 else 3)]
     agg2 = overlay_explore(rep, "C13", ov, "Harness_C13mut$", 0, 0, 120 if quick else 900, "c13_mut", sample_every=197, max_triage=4, args=set(args))
